@@ -97,7 +97,10 @@ def main():
             r = dict(kind=kind, corruption=name, slice_rejecting=sl, verdict=v1, expected="reject")
             ok &= v1 == "reject"
             if must_accept:
-                v2 = judge(bad, must_accept, wd, "c2")
+                # only up to the corrupted line: one wrong line leaves a wrong pre-state for the next
+                # call, which any slice may then (rightly) object to
+                cut = next(i for i, (x, y) in enumerate(zip(bad, lines)) if x != y) + 1
+                v2 = judge(bad[:cut], must_accept, wd, "c2")
                 r.update(slice_unrelated=must_accept, verdict_unrelated=v2, expected_unrelated="accept")
                 ok &= v2 == "accept"
             results.append(r)
